@@ -182,17 +182,45 @@ def method_name(kind: str, hdr: bool) -> str:
 
 
 # ------------------------------------------------------------------------------------------------ transports
+class _NeverStorage:
+    """External storage that must never be reached: batches stay far below the externalisation threshold, so
+    maybe_externalize_collector / maybe_externalize_batch only take their pass-through branches."""
+
+    def upload(self, data: bytes, schema: pa.Schema, *, content_encoding: str | None = None) -> str:
+        raise AssertionError("externalisation threshold not reached in this world")
+
+
+def _external_config():
+    from vgi_rpc.external import ExternalLocationConfig
+
+    return ExternalLocationConfig(storage=_NeverStorage(), externalize_threshold_bytes=1 << 30)
+
+
 class PipeWorld:
-    """A fresh real pipe connection + serve thread per call (so a desynchronised call cannot poison the next)."""
+    """A fresh real pipe connection + serve thread per call (so a desynchronised call cannot poison the next).
+
+    route = which branch of _flush_collector / _write_result_batch writes the output:
+      "inline"  plain pipe pair
+      "shm"     ShmPipeTransport on both ends (per-call segment): log batches go over the pipe, data batches above
+                SHM_MIN_BATCH_BYTES through the segment
+      "ext"     the server has an external-storage configuration whose threshold is never reached"""
 
     name = "pipe"
 
-    def __init__(self) -> None:
+    def __init__(self, route: str = "inline") -> None:
+        self.route = route
         self.impl = LifeImpl()
-        self.server = RpcServer(LifeSvc, self.impl)
+        self.server = RpcServer(LifeSvc, self.impl, external_location=_external_config() if route == "ext" else None)
 
     def open(self, on_log):
         ct, st = make_pipe_pair()
+        seg = None
+        if self.route == "shm":
+            from vgi_rpc.rpc import ShmPipeTransport
+            from vgi_rpc.shm import ShmSegment
+
+            seg = ShmSegment.create(2 * 1024 * 1024)
+            ct, st = ShmPipeTransport(ct, seg), ShmPipeTransport(st, seg)
         server = self.server
         died: list = []
 
@@ -218,6 +246,12 @@ class PipeWorld:
                     t.close()
                 except Exception:  # noqa: BLE001
                     pass
+            if seg is not None:
+                for fn in (seg.unlink, seg.close):
+                    try:
+                        fn()
+                    except Exception:  # noqa: BLE001
+                        pass
 
         return px, close, died
 
@@ -227,12 +261,16 @@ class HttpWorld:
 
     name = "http"
 
-    def __init__(self) -> None:
+    def __init__(self, route: str = "inline") -> None:
+        """route: "inline" | "ext" (server has a never-reached external storage) | "buf" (max_response_bytes set, never
+        reached: a producer's turns are buffered into one response)"""
         from vgi_rpc.http._testing import make_sync_client
 
+        self.route = route
         self.impl = LifeImpl()
-        self.server = RpcServer(LifeSvc, self.impl)
-        self.client = make_sync_client(self.server, token_key=b"k" * 32, compression_level=None)
+        self.server = RpcServer(LifeSvc, self.impl, external_location=_external_config() if route == "ext" else None)
+        self.client = make_sync_client(self.server, token_key=b"k" * 32, compression_level=None,
+                                       max_response_bytes=64 * 1024 * 1024 if route == "buf" else None)
 
     def open(self, on_log):
         from vgi_rpc.http import http_connect
